@@ -23,6 +23,16 @@ PENALTIES = {
     "ZERO2": np.zeros((2, 2)),
 }
 EXPECTED_RANK = {"I2": 2, "SPD3": 3, "RW1_3": 2, "RW2_4": 2, "ZERO2": 0}
+# penalties whose numerical rank (np.linalg.matrix_rank, relative tolerance) differs from
+# the number of float32 eigenvalues above an ABSOLUTE threshold of 1e-6: a small overall
+# scale pushes true eigenvalues below 1e-6, a large scale lifts the null-space noise above
+_D2_20 = np.diff(np.eye(20), n=2, axis=0)
+_D1_20 = np.diff(np.eye(20), axis=0)
+PENALTIES_SCALED = {
+    "RW2_20_x1e-5": 1e-5 * (_D2_20.T @ _D2_20),
+    "RW1_20_x100": 100.0 * (_D1_20.T @ _D1_20),
+}
+EXPECTED_RANK.update({"RW2_20_x1e-5": 18, "RW1_20_x100": 19})
 # thorough tier only
 PENALTIES_EXTRA = {
     "RW1_5": np.diff(np.eye(5), axis=0).T @ np.diff(np.eye(5), axis=0),
@@ -32,14 +42,17 @@ EXPECTED_RANK.update({"RW1_5": 4, "BLOCK4": 3})
 
 
 def penalty(name: str):
-    return PENALTIES[name] if name in PENALTIES else PENALTIES_EXTRA[name]
+    for d in (PENALTIES, PENALTIES_SCALED, PENALTIES_EXTRA):
+        if name in d:
+            return d[name]
+    raise KeyError(name)
 
 
 def betas(name: str) -> list[list[float]]:
     """Coefficient lattice: zero, unit vector, null-space vectors, generic, scaled."""
     d = penalty(name).shape[0]
     out = [[0.0] * d, [1.0] + [0.0] * (d - 1), [1.0] * d, [float(i) for i in range(d)]]
-    generic = [1.0, -1.0, 2.0, 0.5, -1.5][:d]
+    generic = ([1.0, -1.0, 2.0, 0.5, -1.5] * 4)[:d]
     out.append(generic)
     out.append([3.0 * v for v in generic])
     return out
@@ -49,10 +62,13 @@ def rank(K) -> int:
     return int(np.linalg.matrix_rank(np.asarray(K, dtype=np.float64)))
 
 
-def tau2_conditional(K, a: float, b: float, beta):
+def tau2_conditional(K, a: float, b: float, beta, rank_in_state=None):
+    """rank_in_state: the rank hyper-parameter the model state carries (the model's
+    coefficient prior uses tau2^(-rank/2) with exactly that value); default rk(K)."""
     K = np.asarray(K, dtype=np.float64)
     beta = np.asarray(beta, dtype=np.float64)
-    return a + 0.5 * rank(K), b + 0.5 * float(beta @ K @ beta)
+    r = rank(K) if rank_in_state is None else rank_in_state
+    return a + 0.5 * r, b + 0.5 * float(beta @ K @ beta)
 
 
 def ig_logpdf(x: float, a: float, b: float) -> float:
@@ -84,10 +100,21 @@ def prior_logp(spec: dict, theta: dict, o: float) -> float:
     return math.log(p) if p > 0 else -math.inf
 
 
+def y_of(spec: dict) -> list[float]:
+    """Observed data of a spec: an explicit list, or ``ny`` generated values in [-0.5, 1.5)."""
+    if "ny" in spec:
+        return [((i * 37) % 100) / 50.0 - 0.5 for i in range(int(spec["ny"]))]
+    return list(spec["y"])
+
+
 def lik_logp(spec: dict, theta: dict, o: float) -> float:
     if spec["lik"] == "none":
         return 0.0
-    y = np.asarray(spec["y"], dtype=np.float64)
+    y = np.asarray(y_of(spec), dtype=np.float64)
+    if spec["lik"] == "resid":
+        # the variable enters through the VALUE of a weak variable with a distribution:
+        # r = y - slope * z,  r ~ N(icpt, sd)
+        return float(np.sum(_lognorm(y - theta["slope"] * o, theta["icpt"], theta["sd"])))
     if spec["lik"] == "mean":
         loc = theta["icpt"] + theta["slope"] * o
         return float(np.sum(_lognorm(y, loc, theta["sd"])))
